@@ -256,4 +256,7 @@ def run(ctx):
     rule_guards(ctx)
     rule_abortable(ctx)
     rule_fatal(ctx)
+    # a transaction may be declared finished (READY again) only after its batches were flushed: otherwise a batch of the aborted
+    # transaction survives into the next one (rule shared with C07)
+    c07.rule_flush_before_end(ctx)
     rep.nd("'without any effect on the cluster' beyond the absence of a request-creating call on the raising path")
